@@ -29,6 +29,7 @@ EXPECT = {
     "negative integer literals": ["C14"],
     "LoadPolicies refuses serialized policies": ["C18"],
     "LoadPolicies keeps the meaning": ["C04"],
+    "keeps its rules after Authorize": ["C03"],
 }
 def sh(cmd, **kw):
     return subprocess.run(cmd, shell=True, capture_output=True, text=True, **kw)
